@@ -1,6 +1,7 @@
 import Driver.Proto
 import Driver.Dec
 import Driver.Hist
+import Driver.Merge
 
 open Lean
 
@@ -9,6 +10,7 @@ def handleAll (j : Json) : Json :=
   | .ok o =>
     if o.startsWith "spec." || o.startsWith "dis." then Driver.Dec.handle j
     else if o.startsWith "hist." then Driver.Hist.handle j
+    else if o.startsWith "merge." then Driver.Merge.handle j
     else Driver.jerr s!"unknown op {o}"
   | .error e => Driver.jerr e
 
